@@ -34,14 +34,31 @@ class Env(object):
     pass
 
 
-def build(scratch, dbkind, name='main'):
+_reconnecting_cls = []
+
+
+def reconnecting_provider():
+    """Stand-in for the providers that reconnect (PostgreSQL, MySQL, Oracle - none can run here): the SQLite
+    provider with should_reconnect() true for the injected 'connection lost' error, so that the
+    provider-neutral reconnect logic in Database._exec_sql / SessionCache.reconnect is exercised.  A stub."""
+    if not _reconnecting_cls:
+        import pony.orm.dbproviders.sqlite as psq
+
+        class ReconnectingSQLiteProvider(psq.SQLiteProvider):
+            def should_reconnect(provider, exc):
+                return getattr(exc, 'ponysim_injected', None) == 'connlost'
+        _reconnecting_cls.append(ReconnectingSQLiteProvider)
+    return _reconnecting_cls[0]
+
+
+def build(scratch, dbkind, name='main', reconnecting=False):
     db = orm.Database()
     ns = {'db': db, 'Required': orm.Required, 'Optional': orm.Optional, 'Set': orm.Set,
           'PrimaryKey': orm.PrimaryKey}
     exec(SCHEMA_SRC, ns)
     if dbkind == 'file':
         path = os.path.join(scratch, name + '.sqlite')
-        db.bind('sqlite', path, create_db=True, timeout=0)
+        db.bind(reconnecting_provider() if reconnecting else 'sqlite', path, create_db=True, timeout=0)
     elif dbkind == 'memory':
         path = ':memory:'
         db.bind('sqlite', ':memory:', timeout=0)
@@ -463,7 +480,8 @@ def run_case(case, scratch):
     E = Env()
     E.scratch = scratch
     c.phase = 'setup'
-    E.db, E.A, E.B, E.C, E.path = build(scratch, dbkind)
+    reconnecting = bool(case.get('reconnecting'))
+    E.db, E.A, E.B, E.C, E.path = build(scratch, dbkind, reconnecting=reconnecting)
     dbs = [E.db]
     if shape == 'two_db':
         E.db2, E.A2, E.B2, E.C2, E.path2 = build(scratch, dbkind, 'second')
@@ -472,6 +490,14 @@ def run_case(case, scratch):
     if not pooled:
         for db in dbs:
             db.disconnect()
+    initial_data = None
+    if dbkind == 'file':
+        con0 = simdb.raw_connect(E.path)
+        try:
+            initial_data = [[list(r) for r in con0.execute('select id, name, val from A order by id').fetchall()],
+                            [list(r) for r in con0.execute('select id, a, tag from B order by id').fetchall()]]
+        finally:
+            con0.close()
     # ---- main phase
     n_setup = len(c.events)
     c.g = 0
@@ -490,7 +516,7 @@ def run_case(case, scratch):
     fault_desc = '+'.join('%s:%s' % (f[3], f[4]) for f in c.fired) or 'none'
 
     def viol(sub, detail):
-        key = 'C19|%s|shape=%s|db=%s|fault=%s' % (sub, shape, dbkind, fault_desc)
+        key = 'C19|%s|shape=%s|db=%s|fault=%s%s' % (sub, shape, dbkind, fault_desc, '|reconnecting' if reconnecting else '')
         if not any(v['key'] == key for v in violations):
             violations.append({'prop': 'C19', 'key': key,
                                'detail': '%s (body ended with %s; faults fired: %s)'
@@ -499,6 +525,28 @@ def run_case(case, scratch):
     if isinstance(body_exc, simsched.SimDeadlock):
         viol('session-blocked-on-own-lock', str(body_exc))
     end_state_checks(E, viol, dbs)
+    data = None
+    if dbkind == 'file':
+        # committed data right after the shape (before the probe sessions add theirs)
+        con = simdb.raw_connect(E.path)
+        try:
+            data = [con.execute('select id, name, val from A order by id').fetchall(),
+                    con.execute('select id, a, tag from B order by id').fetchall()]
+            data = [[list(r) for r in t] for t in data]
+        except Exception:
+            data = None
+        finally:
+            con.close()
+        exp_all = case.get('expect_all')
+        exp_none = initial_data
+        if reconnecting and c.fired and exp_all is not None and exp_none is not None and data is not None:
+            # C17 through the provider-neutral reconnect logic: a connection lost in the middle of a session
+            # must not let part of the session commit
+            if data != exp_all and data != exp_none:
+                violations.append({'prop': 'C17', 'key': 'C17|partial-commit-after-reconnect|shape=%s|fault=%s' % (shape, fault_desc),
+                                   'detail': 'connection lost during the session (stand-in reconnecting provider): the database '
+                                             'holds %r, which is neither the state before the session %r nor the state of the '
+                                             'complete session %r (body ended with %s)' % (data, exp_none, exp_all, _exc_name(body_exc))})
     liveness_probe(E, viol, second_thread=(dbkind != 'memory'))
     for db in dbs:
         try:
@@ -507,6 +555,15 @@ def run_case(case, scratch):
             pass
     calls = [{'g': ev['g'], 'kind': ev['kind'], 'sql': ev.get('sql'), 'legal': legal_faults(ev, tier, dbkind)}
              for ev in main_events if ev['phase'] == 'main']
+    if reconnecting:
+        # the connection can be lost at any statement (that is what the reconnecting providers handle)
+        for cl in calls:
+            if cl['kind'] in ('execute', 'executemany') and not (cl['sql'] or '').upper().startswith('PRAGMA'):
+                cl['legal'] = ['connlost']
+            elif cl['kind'] == 'connect':
+                cl['legal'] = ['cantopen']
+            else:
+                cl['legal'] = []
     digest = hsh([[ev['g'], ev['t'], ev['c'], ev['kind'], ev.get('sql'), ev.get('params'), ev.get('rows'),
                    ev.get('fault'), ev.get('exc')] for ev in c.events] + [_exc_name(body_exc)])
     fired_sig = [[f[0], f[3], f[4]] for f in c.fired]
@@ -517,14 +574,18 @@ def run_case(case, scratch):
         'unfired': sorted(c.gfaults),
         'body_exc': _exc_name(body_exc),
         'body_exc_msg': str(body_exc)[:200] if body_exc is not None else None,
+        'data': data,
         'digest': digest,
-        'sig': hsh([shape, dbkind, pooled, fired_sig]),
+        'sig': hsh([shape, dbkind, pooled, fired_sig] + (['reconnecting'] if reconnecting else [])),
         'nontrivial': bool(c.fired),
         'probes': {
             'fault_during_open_transaction': int(any(f for f in c.fired) and any(
                 (ev.get('sql') or '').startswith('BEGIN') for ev in main_events)),
             'error_path_second_fault': int(len(c.fired) >= 2),
             'body_raised': int(body_exc is not None),
+            'connection_lost_inside_transaction': int(reconnecting and any(f[4] == 'connlost' for f in c.fired) and any(
+                ev.get('fault') == 'connlost' and ev.get('in_tx') for ev in main_events)),
+            'session_survived_connection_loss': int(reconnecting and bool(c.fired) and body_exc is None),
             'obs_fk_off_on_pooled_connection': int('pooled-connection-fk-off' in c.observations),
         },
         'sample': {'shape': shape, 'dbkind': dbkind, 'pooled': pooled, 'faults': case.get('faults', []),
